@@ -467,6 +467,61 @@ def _decode(res):
             if not ok:
                 add_violation(res, "C18:unipi:decode", f"reg {code:#x} value {v:#x}: {r!r}", {"driver": "unipi", "what": "decode", "status": code, "rval": v, "bits": 16, "value": 0, "twice": False, "cls": ""})
     res["distinct"].add(("unipi", "decode", "table"))
+    # UniPi, the whole receive path of send(): a register-file model of the gateway (receive counter - a 16-bit Modbus register,
+    # so it wraps -, kind register 0x100 = backward frame, data register) behind the driver's backend seam.  Every
+    # (starting counter, poll at which the answer becomes visible, answer) combination on every bus.
+    from dali.gear.general import QueryStatus, Compare
+
+    class RegFile:
+        def __init__(self, drvbus, counter, answer, at_poll):
+            self.recv, self.send, self.fe = 1 + 3 * drvbus, 13 + 2 * drvbus, 38 + drvbus // 2
+            self.regs = {self.recv: counter, self.recv + 1: 0x200, self.recv + 2: 0x03A0, self.fe: 7}
+            self.answer, self.at_poll, self.polls, self.writes = answer, at_poll, 0, []
+
+        def write_regs(self, reg, values, unit=None):
+            self.writes.append((reg, tuple(values)))
+
+        def read_regs(self, reg, cnt, unit=None):
+            if reg == self.recv and cnt == 3:
+                if self.polls == self.at_poll and self.answer is not None:
+                    self.regs[self.recv] = (self.regs[self.recv] + 1) & 0xFFFF
+                    self.regs[self.recv + 1], self.regs[self.recv + 2] = 0x100, self.answer
+                self.polls += 1
+            return [self.regs.get(reg + i, 0) for i in range(cnt)]
+    old_sleep, old_arm = UP.sleep, UP.RemoteArm
+    UP.sleep = lambda s: None
+    try:
+        for drvbus in range(4):
+            for counter in (0, 1, 0x00FF, 0x0100, 0x7FFF, 0x8000, 0xFFFE, 0xFFFF):
+                for cmd in (q, QueryStatus(GearShort(2)), nq):
+                    for answer in (None, 0x00, 0x7B, 0xFF):
+                        for at_poll in ((0, 1, 5) if answer is not None else (0,)):
+                            rf = RegFile(drvbus, counter, answer, at_poll)
+                            UP.RemoteArm = lambda host, unit=1, rf=rf: rf
+                            d = UP.SyncUnipiDALIDriver(bus=drvbus)
+                            res["evaluations"] += 1
+                            case = {"driver": "unipi", "what": "send-receive", "status": counter, "rval": answer, "bits": 16, "value": cmd.frame.as_integer, "twice": False,
+                                    "cls": type(cmd).__name__}
+                            try:
+                                r = d.send(cmd)
+                            except Exception as e:
+                                add_violation(res, "C18:unipi:send-raises", f"send({cmd}) raised {e!r}", case)
+                                continue
+                            if cmd.response is None:
+                                ok = r is UP.DALI_NO_RESPONSE or r is None
+                            elif answer is None:
+                                ok = isinstance(r, cmd.response) and r.raw_value is None
+                            else:
+                                ok = isinstance(r, cmd.response) and r.raw_value is not None and r.raw_value.as_integer == answer and not r.raw_value.error
+                            if not ok:
+                                add_violation(res, "C18:unipi:receive", f"bus {drvbus}, receive counter {counter:#06x} -> {(counter + 1) & 0xFFFF:#06x} at poll {at_poll}, registers "
+                                              f"(0x0100, {answer if answer is None else hex(answer)}) answering {cmd}: send() returned {r!r} "
+                                              f"({None if getattr(r, 'raw_value', None) is None else r.raw_value})", case)
+                            if not rf.writes or any(reg != rf.send for reg, v in rf.writes):
+                                add_violation(res, "C18:unipi:send-register", f"bus {drvbus}: registers written {rf.writes}", case)
+        res["distinct"].add(("unipi", "send-receive", "regfile"))
+    finally:
+        UP.sleep, UP.RemoteArm = old_sleep, old_arm
     # ATX lines
     ax = AX.DaliHatSerialDriver.__new__(AX.DaliHatSerialDriver)
     import logging
@@ -529,7 +584,7 @@ def _trid_with_junk(rtype, info):
 def replay(case):
     """Re-run the (small) shard the case came from; the runner keeps the violation with the same key."""
     d, what = case["driver"], case["what"]
-    if what == "decode":
+    if what in ("decode", "send-receive"):
         res = new_result()
         _decode(res)
         return [v for v in res["violations"] if v["case"]["driver"] == d]
